@@ -217,6 +217,8 @@ int main(int argc, char **argv) {
         Case c; std::string err;
         if (!parse(slurp(replayFile), c, &err)) { fprintf(stderr, "cannot parse %s: %s\n", replayFile.c_str(), err.c_str()); return 3; }
         if (std::string(exec_props).find(c.prop) == std::string::npos) { fprintf(stderr, "this executor does not serve %s\n", c.prop.c_str()); return 3; }
+        // the same budgets as in exploration, so that a replay of a hanging case ends by itself
+        { struct rlimit rl; rl.rlim_cur = (rlim_t)g_cpu_limit * 3; rl.rlim_max = (rlim_t)g_cpu_limit * 3 + 2; setrlimit(RLIMIT_CPU, &rl); alarm(g_wall_limit > 120 ? 120 : g_wall_limit); }
         set_report(1, true);
         exec_case(c);
         finish_ok();
